@@ -72,7 +72,7 @@ CHECKS = {
                 technique="TLC model checking of the environment/fault model MC_Fault + replay of every fault scenario with exhaustive concretisation of torn files (every byte prefix)",
                 text="TLC enumerates file states x directory states x event sequences (new, type, learning commit, crash in the middle of a save, restart, update) and checks the robustness "
                      "invariants; the harness replays every scenario with torn = every proper byte prefix of an engine-written store, wrong-shape and empty-entry corpora, missing / blocked "
-                     "directory: nothing may panic, unreadable = absent (differential on 6 probe words), failed save keeps the choice in memory, completed save leaves a loadable file; a second instance lets the environment replace / damage / delete the auto-correct file under a live context and demands that re-loading answers like a context created now (ReloadAsNew)",
+                     "directory: nothing may panic, unreadable = absent (differential on 7 probe words), failed save keeps the choice in memory, completed save leaves a loadable file; a second instance lets the environment replace / damage / delete the auto-correct file under a live context and demands that re-loading answers like a context created now (ReloadAsNew)",
                 note="root sandbox: unwritable directory simulated by a regular file at its path; complete sweeps once per environment and worker, samples afterwards"),
     "C11": dict(category=MC, design_ref="DESIGN.md 5 C11",
                 technique="TLC model checking of UpdatedEquivFresh on the memo/stamp model + paired replay: updated context vs context created fresh at the update point",
